@@ -94,6 +94,8 @@ pub enum Served {
     Timeout,
     /// an armed fork fired while the client was scanning
     ForkDuringScan { to: u64 },
+    /// (recorded by the store tap, not by the node) the importer committed a batch ending with this block
+    Stored { slot: u64, hash: String },
 }
 
 #[derive(Clone, Debug, PartialEq, Eq)]
@@ -113,12 +115,14 @@ pub struct Server {
     /// fork `depth` blocks below the read pointer once two blocks were rolled forward in a scan
     pub armed_fork: Option<u64>,
     pub forwards_in_scan: u64,
+    /// the connection breaks (time-out, reset) once the next scan has rolled four blocks forward
+    pub armed_timeout: bool,
     pub max_len: usize,
 }
 
 impl Server {
     pub fn new(max_len: usize) -> Server {
-        Server { chain: vec![], next_branch: 1, follower: None, served: vec![], armed_fork: None, forwards_in_scan: 0, max_len }
+        Server { chain: vec![], next_branch: 1, follower: None, served: vec![], armed_fork: None, forwards_in_scan: 0, armed_timeout: false, max_len }
     }
     pub fn tip(&self) -> u64 {
         self.chain.len() as u64
@@ -207,6 +211,13 @@ impl ChainBlockReader for SyncReader {
                 s.fork(to, 1);
                 s.served.push(Served::ForkDuringScan { to });
             }
+        }
+        if s.armed_timeout && s.forwards_in_scan >= 4 {
+            // what PallasChainReader does on a chain-sync time-out or error: Err + drop_client
+            s.armed_timeout = false;
+            s.served.push(Served::Timeout);
+            s.follower = None;
+            return Err(anyhow::anyhow!("harness node: connection to the node lost in the middle of the scan"));
         }
         let len = s.chain.len();
         let f = s.follower.clone().unwrap();
